@@ -226,29 +226,93 @@ def reset_measured(ctx):
         ok = f.pos_params[1] in d0.params
         ctx.ob(rule, f.site, ok, "" if ok else "project_reset is not applied to (a subset of) the measured modes",
                role=f"project{i}:modes", line=c.lineno)
-    # un-permutation of the sampled outcome: outcome[permutation[i]] = permuted_outcome[i]
-    found = False
-    for nd in rd.cfg.nodes:
-        st = nd.ast
-        if nd.kind == "stmt" and isinstance(st, ast.Assign) and isinstance(st.targets[0], ast.Subscript):
-            t = st.targets[0]
-            if not isinstance(st.value, ast.Subscript):
-                continue
-            dv = derives(f.node, st.value.value, nd.id)
-            if not dv.has_call("unIndex"):
-                continue
-            # sorted-aligned outcome is copied into the measure-aligned list
-            found = True
-            ok = False
-            if isinstance(t.slice, ast.Subscript) and derives(f.node, t.slice.value, nd.id).has_call("argsort"):
-                ok = ast.unparse(t.slice.slice) == ast.unparse(st.value.slice)
-            ctx.ob(rule, f.site, ok, "" if ok else "outcome un-permutation does not store permuted_outcome[i] at "
-                   "position permutation[i] (inverse permutation used, or none)", role="unpermute", line=st.lineno)
-    ctx.require(found, "measure_fock: outcome un-permutation not found")
-    ctx.floor(rule, 3)
+    ctx.floor(rule, 2)
+
+
+MEAS_FUNCS = [
+    ("backends/gaussianbackend/gaussiancircuit.py", "GaussianModes.measure_dyne"),
+    ("backends/gaussianbackend/gaussiancircuit.py", "GaussianModes.post_select_homodyne"),
+    ("backends/gaussianbackend/gaussiancircuit.py", "GaussianModes.post_select_heterodyne"),
+    ("backends/bosonicbackend/bosoniccircuit.py", "BosonicModes.post_select_generaldyne"),
+    ("backends/bosonicbackend/bosoniccircuit.py", "BosonicModes.measure_threshold"),
+]
+
+
+def gain(ctx, rule="C06.gain"):
+    ctx.explain(f"{rule}: in every general-dyne update the covariance update (Schur complement), the mean update and the "
+                "re-weighting use the inverse of one and the same matrix (measured block + measurement noise): all "
+                "np.linalg.inv(...) arguments inside one update routine agree, and the sibling routines of one circuit "
+                "agree with each other.")
+    per_file = {}
+    for rel, qn in MEAS_FUNCS:
+        f = ctx.tree.func(rel, qn)
+        invs = [n for n in walk_no_nested(f.node) if isinstance(n, ast.Call) and (dotted(n.func) or "").endswith("linalg.inv") and n.args]
+        ctx.require(len(invs) >= 2, f"{qn}: fewer than two matrix inverses found")
+        texts = {ast.unparse(n.args[0]).replace(" ", "") for n in invs}
+        ok = len(texts) == 1
+        ctx.ob(rule, f.site, ok, "" if ok else f"the update uses inverses of different matrices {sorted(texts)}: covariance and "
+               "mean are conditioned with different gains (the state is no longer the conditional state of the outcome)",
+               role="one-gain", line=invs[0].lineno)
+        noise = all(("+" in t) for t in texts)
+        ctx.ob(rule, f.site, noise, "" if noise else f"an inverse {sorted(texts)} lacks the measurement-noise term",
+               role="noise-term", line=invs[0].lineno)
+        per_file.setdefault(rel, []).append((qn, texts))
+    ctx.floor(rule, 10)
+
+
+def fock_outcome(ctx, rule="C06.fock-outcome"):
+    ctx.explain(f"{rule}: Circuit.measure_fock samples the outcome of the measured modes in ascending mode order (axes of "
+                "the reduced state) and must hand project_reset the outcome re-ordered to the order of `measure`: the "
+                "statements between the sampling and the projection are folded by the analyser for every ordered choice "
+                "of up to 3 measured modes out of 4 and the pairing (mode, outcome of that mode) is checked.")
+    import itertools
+    from ..layout import Frame, Machine, NotModelled, Returned, Violation
+    f = ctx.tree.func("backends/fockbackend/circuit.py", "Circuit.measure_fock")
+    # locate the slice: after `permuted_outcome = ops.unIndex(...)` up to the statement calling project_reset(measure, outcome, ...)
+    blk = None
+    for n in walk_no_nested(f.node):
+        if isinstance(n, ast.If):
+            body = n.body
+            i0 = [i for i, st in enumerate(body) if isinstance(st, ast.Assign) and
+                  any(isinstance(c, ast.Call) and dotted(c.func) == "ops.unIndex" for c in ast.walk(st.value))]
+            i1 = [i for i, st in enumerate(body) if any(isinstance(c, ast.Call) and dotted(c.func) == "ops.project_reset"
+                                                       for c in ast.walk(st))]
+            if i0 and i1 and i1[0] > i0[0]:
+                blk = (body, i0[0], i1[0])
+    ctx.require(blk is not None, "measure_fock: sampling (ops.unIndex) / projection (ops.project_reset) anchors not found")
+    body, a, b = blk
+    tgt = body[a].targets[0]
+    ctx.require(isinstance(tgt, ast.Name), "sampled outcome is not bound to a name")
+    proj = [c for c in ast.walk(body[b]) if isinstance(c, ast.Call) and dotted(c.func) == "ops.project_reset"][0]
+    n_cases = 0
+    for k in (1, 2, 3):
+        for measure in itertools.permutations(range(4), k):
+            n_cases += 1
+            m = Machine(ctx.tree, [])
+            fr = Frame(m, f, None)
+            fr.env = {"measure": list(measure), tgt.id: [("outcome-of-mode", x) for x in sorted(measure)]}
+            label = f"measure={list(measure)}"
+            try:
+                for st in body[a + 1:b]:
+                    fr.stmt(st)
+                modes = fr.ev(proj.args[0])
+                out = fr.ev(proj.args[1])
+                pairs = list(zip(list(modes), list(out)))
+                ok = all(o == ("outcome-of-mode", mm) for mm, o in pairs) and len(pairs) == k
+                ctx.ob(rule, f.site, ok, "" if ok else f"{label}: project_reset receives {pairs}: the sampled outcome of one "
+                       "mode is projected onto another", role=f"pairing:k{k}:{'asc' if list(measure) == sorted(measure) else 'desc'}",
+                       line=body[a].lineno, detail=label)
+            except (NotModelled, Violation, IndexError, KeyError, TypeError) as e:
+                ctx.na(rule, f.site, f"{label}: {type(e).__name__}: {e}")
+    if ctx.not_analysed and any(x["rule"] == rule for x in ctx.not_analysed):
+        from ..loader import AnalysisError
+        raise AnalysisError(f"{rule}: outcome re-ordering code not interpretable: {ctx.not_analysed[-1]['why']}")
+    ctx.floor(rule, 40)
 
 
 def rules(ctx):
+    gain(ctx)
+    fock_outcome(ctx)
     collation(ctx)
     columns(ctx)
     store(ctx)
